@@ -933,6 +933,45 @@ def unmarshal (c : Cfg) (ty : Ty) (j : J) : Except Err Val :=
     | _ => .error .unsupported
   | _ => .error .outside
 
+/-! ## core/mapping/valuer.go: simple and recursive (inherit) lookups
+
+A struct nested in a struct is unmarshalled from a node whose parent is the valuer of the enclosing field, so a lookup
+sees a chain of objects: the current one first, then the enclosing ones, nearest first.  `inherit` selects
+`recursiveValuer` (`createValuer`). -/
+
+/-- the objects a valuer can see: current node first, then its ancestors (nearest first) -/
+abbrev Chain := List Obj
+
+/-- `simpleValuer.Value`: the current node only -/
+def simpleValue (ch : Chain) (k : Str) : Option J :=
+  match ch with
+  | [] => none
+  | cur :: _ => getKey k cur
+
+/-- the loop of `recursiveValuer.Value`: `for k, v := range pm { if _, ok := vm[k]; !ok { vm[k] = v } }` — the child's
+own bindings stay, the parent's fill in the keys the child does not bind -/
+def mergeMissing (vm pm : Obj) : Obj := vm ++ pm.filter (fun kv => !hasKey kv.1 vm)
+
+/-- replace the binding of `k` (the merged object is the very map stored under `k`: the merge is visible to later lookups) -/
+def setKey (k : Str) (v : J) (o : Obj) : Obj := o.filter (fun kv => kv.1 ≠ k) ++ [(k, v)]
+
+/-- `recursiveValuer.Value` with the state it leaves behind: the current node's binding, else the ancestors'; when both the
+current binding and the inherited one are objects the inherited entries are merged *into the current node's object* -/
+def recValueM : Chain → Str → Option J × Chain
+  | [], _ => (none, [])
+  | cur :: parents, k =>
+    match getKey k cur with
+    | none => ((recValueM parents k).1, cur :: (recValueM parents k).2)
+    | some (.obj vm) =>
+      match (recValueM parents k).1 with
+      | some (.obj pm) =>
+        (some (.obj (mergeMissing vm pm)), setKey k (.obj (mergeMissing vm pm)) cur :: (recValueM parents k).2)
+      | _ => (some (.obj vm), cur :: (recValueM parents k).2)
+    | some v => (some v, cur :: parents)
+
+/-- the value an `inherit` lookup returns -/
+def recValue (ch : Chain) (k : Str) : Option J := (recValueM ch k).1
+
 /-! ## rest/httpx.Parse: path, form, header and JSON body unmarshalers on one target -/
 
 def httpCfgPath (pinned : Bool) : Cfg := { fromString := true, pinned := pinned }
